@@ -1,14 +1,393 @@
 import Model.Util
 /-
-  Model/Preserve.lean — (stub) executable model; see DESIGN.md.  Core Lean only.
+  Model/Preserve.lean — executable model of the weight-carrying logic of AgileRL's architecture
+  mutations.  Core Lean only.
+
+  What is modelled (line by line):
+
+  * `EvolvableModule.preserve_parameters(old_net, new_net)`  (agilerl/modules/base.py)
+        old_net_dict = dict(old_net.named_parameters())
+        for key, param in new_net.named_parameters():
+            if key in old_net_dict:
+                if old_size == new_size:      param.data = old_param.data            -- aliased
+                elif "norm" not in key:       slice_index = tuple(slice(0, min(o, n)) for o, n in zip(old_size, new_size))
+                                              param.data[slice_index] = old_param.data[slice_index]
+    `zip` truncates to the shorter rank; the assignment is torch's `setitem`, i.e. the value is
+    broadcast to the view (leading 1-dims of the value are dropped while it has more dims than the
+    view; then right-aligned, each value dim must be 1 or equal) or a `RuntimeError` is raised.
+  * `EvolvableCNN.shrink_preserve_parameters` (agilerl/modules/cnn.py): the same with
+    `[:min_0]` for rank-1 parameters and `[:min_0, :min_1]` otherwise (the other axes are taken whole).
+  * only `named_parameters()` are visited: buffers (BatchNorm running statistics, NoisyLinear
+    epsilons) of the re-created network are the freshly initialised ones.
+  * `EvolvableModule.clone()`: `cls(**init_dict)` then `load_state_dict(state_dict())` inside
+    `try … except RuntimeError: pass`.
+
+  Switches (a known finding is a *parameter* of the model, both values are proved about):
+    `NormPolicy.reset`  = the code as written (`"norm" not in key` guard),  `.slice` = guard removed;
+    `BufPolicy.fresh`   = the code as written (buffers not carried over),   `.carry` = buffers are
+                          treated like parameters.
+
+  A tensor is a shape and flat row-major data.  The data type is a parameter (`Rat` values, or
+  provenance tags): nothing below computes with the values, they are only moved.
 -/
+namespace Preserve
+
+abbrev Shape := List Nat
+
+/-- number of elements -/
+def numel : Shape → Nat
+  | [] => 1
+  | d :: ds => d * numel ds
+
+/-- the multi-index addresses an element of a tensor of that shape (same rank, every component
+    below its dimension) -/
+def inBounds : Shape → List Nat → Bool
+  | [], [] => true
+  | d :: ds, i :: is => decide (i < d) && inBounds ds is
+  | _, _ => false
+
+/-- row-major (C-contiguous) flat offset of a multi-index: mixed radix -/
+def offset : Shape → List Nat → Nat
+  | _ :: ds, i :: is => i * numel ds + offset ds is
+  | _, _ => 0
+
+/-- the multi-index of a flat offset (inverse of `offset` on in-bounds indices) -/
+def unravel : Shape → Nat → List Nat
+  | [], _ => []
+  | _ :: ds, k => (k / numel ds) :: unravel ds (k % numel ds)
+
+/-- component-wise minimum of two shapes (`zip` semantics: length of the shorter one) -/
+def boxMin (a b : Shape) : Shape := List.zipWith min a b
+
+structure Tensor (α : Type) where
+  shape : Shape
+  data  : List α
+deriving Repr, DecidableEq
+
+/-- well-formed: as many data elements as the shape says -/
+def Tensor.WF {α} (t : Tensor α) : Prop := t.data.length = numel t.shape
+
+/-- element at a multi-index (`none` when out of bounds) -/
+def Tensor.get {α} (t : Tensor α) (idx : List Nat) : Option α :=
+  if inBounds t.shape idx then t.data[offset t.shape idx]? else none
+
+/-- where an element of the re-created tensor comes from -/
+inductive Src where
+  | old (k : Nat)      -- flat element `k` of the old tensor
+  | fresh              -- keeps the fresh initialisation of the new tensor
+deriving Repr, DecidableEq
+
+/-! ### the slice assignment `new[:m_0, …, :m_{r-1}] = old[:m_0, …, :m_{r-1}]` -/
+
+/-- torch `setitem`: leading 1-dims of the value are dropped while it has more dims than the view -/
+def stripLead (rv : Nat) : Shape → Shape
+  | 1 :: rest => if (1 :: rest).length > rv then stripLead rv rest else 1 :: rest
+  | w => w
+
+/-- value dims (right-aligned with the view dims) must each be 1 or equal -/
+def compat : Shape → Shape → Bool
+  | [], [] => true
+  | d :: ds, e :: es => (d == 1 || d == e) && compat ds es
+  | _, _ => false
+
+/-- index into the (stripped) value for a view index: broadcast dims read element 0 -/
+def alignIdx : Shape → List Nat → List Nat
+  | d :: ds, i :: is => (if d = 1 then 0 else i) :: alignIdx ds is
+  | _, _ => []
+
+structure Assign where
+  view : Shape          -- shape of `new[slices]`
+  wst  : Shape          -- shape of `old[slices]` after dropping leading 1-dims
+  pad  : Nat            -- how many leading dims were dropped
+deriving Repr, DecidableEq
+
+/-- plan of `new[s] = old[s]` with `s = (slice(0, min(o_i, n_i)) for i < r)`;
+    `none` = the real code raises (too many indices / shapes cannot be broadcast) -/
+def planAssign (r : Nat) (os ns : Shape) : Option Assign :=
+  if r ≤ os.length ∧ r ≤ ns.length then
+    let m := (boxMin os ns).take r
+    let view := m ++ ns.drop r
+    let w := m ++ os.drop r
+    let wst := stripLead view.length w
+    if wst.length ≤ view.length ∧ compat wst (view.drop (view.length - wst.length)) then
+      some { view := view, wst := wst, pad := w.length - wst.length }
+    else none
+  else none
+
+/-- multi-index in the old tensor that a multi-index of the new tensor is copied from -/
+def Assign.src (a : Assign) (idx : List Nat) : Option (List Nat) :=
+  if inBounds a.view idx then
+    some (List.replicate a.pad 0 ++ alignIdx a.wst (idx.drop (a.view.length - a.wst.length)))
+  else none
+
+/-- provenance of flat element `k` of the new tensor under an index map -/
+def provAt (os ns : Shape) (src : List Nat → Option (List Nat)) (k : Nat) : Src :=
+  match src (unravel ns k) with
+  | some w => .old (offset os w)
+  | none => .fresh
+
+/-- the value an element ends up with: `v` is its fresh initialisation -/
+def pick {α} (od : List α) (v : α) : Src → α
+  | .old j => od[j]?.getD v
+  | .fresh => v
+
+/-- the new data after the copy described by `src` -/
+def build {α} (os ns : Shape) (src : List Nat → Option (List Nat)) (od nd : List α) : List α :=
+  nd.mapIdx fun k v => pick od v (provAt os ns src k)
+
+/-- index map of the common hyper-rectangle of two shapes of equal rank -/
+def boxSrc (os ns : Shape) (idx : List Nat) : Option (List Nat) :=
+  if inBounds (boxMin os ns) idx then some idx else none
+
+/-- copy the common hyper-rectangle, everything else keeps the fresh initialisation -/
+def copyBox {α} (old new : Tensor α) : Tensor α :=
+  { shape := new.shape, data := build old.shape new.shape (boxSrc old.shape new.shape) old.data new.data }
+
+/-- general slice assignment on the first `r` axes (torch broadcasting, `none` = raises) -/
+def assign {α} (r : Nat) (old new : Tensor α) : Option (Tensor α) :=
+  (planAssign r old.shape new.shape).map fun a =>
+    { shape := new.shape, data := build old.shape new.shape a.src old.data new.data }
+
+inductive NormPolicy where
+  | reset     -- current code: a resized parameter whose key contains "norm" is left re-initialised
+  | slice     -- repaired: norm parameters are slice-copied like every other parameter
+deriving Repr, DecidableEq
+
+inductive Mode where
+  | full      -- `EvolvableModule.preserve_parameters`
+  | shrink    -- `EvolvableCNN.shrink_preserve_parameters`
+deriving Repr, DecidableEq
+
+def hasPrefix : List Char → List Char → Bool
+  | [], _ => true
+  | _ :: _, [] => false
+  | p :: ps, c :: cs => p == c && hasPrefix ps cs
+
+def hasInfix (p : List Char) : List Char → Bool
+  | [] => p.isEmpty
+  | c :: cs => hasPrefix p (c :: cs) || hasInfix p cs
+
+/-- `"norm" in key` -/
+def isNormKey (key : String) : Bool := hasInfix ['n', 'o', 'r', 'm'] key.toList
+
+/-- how many leading axes the code slices -/
+def sliceRank (mode : Mode) (os ns : Shape) : Option Nat :=
+  match mode with
+  | .full => some (min os.length ns.length)
+  | .shrink =>
+    -- `min(old_size[0], new_size[0])` raises IndexError on a 0-dim tensor
+    if os.length = 0 ∨ ns.length = 0 then none
+    else if ns.length = 1 then some 1 else some 2
+
+/-- what happens to one parameter that exists in both networks.  `none` = the real code raises. -/
+def preserveT {α} (pol : NormPolicy) (mode : Mode) (norm : Bool) (old new : Tensor α) :
+    Option (Tensor α) :=
+  if old.shape = new.shape then some old                          -- `param.data = old_param.data`
+  else if norm ∧ pol = .reset then some new                       -- the `"norm" not in key` guard
+  else match mode with
+    | .full =>
+      if old.shape.length = new.shape.length then some (copyBox old new)
+      else assign (min old.shape.length new.shape.length) old new  -- `zip` truncates
+    | .shrink =>
+      match sliceRank .shrink old.shape new.shape with
+      | some r => assign r old new
+      | none => none
+
+/-- the provenance map of one parameter, computed from (key class, shapes) only -/
+def provT (pol : NormPolicy) (mode : Mode) (norm : Bool) (os ns : Shape) : Option (List Src) :=
+  let all (f : Nat → Src) := (List.range (numel ns)).map f
+  if os = ns then some (all .old)
+  else if norm ∧ pol = .reset then some (all fun _ => .fresh)
+  else match mode with
+    | .full =>
+      if os.length = ns.length then some (all (provAt os ns (boxSrc os ns)))
+      else (planAssign (min os.length ns.length) os ns).map fun a => all (provAt os ns a.src)
+    | .shrink =>
+      match sliceRank .shrink os ns with
+      | some r => (planAssign r os ns).map fun a => all (provAt os ns a.src)
+      | none => none
+
+/-! ### whole networks: `named_parameters()` as an association list -/
+
+abbrev Params (α : Type) := List (String × Tensor α)
+
+def lookup {α} (ps : Params α) (key : String) : Option (Tensor α) :=
+  match ps with
+  | [] => none
+  | (k, t) :: rest => if k = key then some t else lookup rest key
+
+/-- one iteration of the loop over `new_net.named_parameters()` -/
+def preserveKey {α} (pol : NormPolicy) (mode : Mode) (old : Params α) (key : String)
+    (p : Tensor α) : Option (Tensor α) :=
+  match lookup old key with
+  | none => some p                                  -- key not in the old network: stays fresh
+  | some o => preserveT pol mode (isNormKey key) o p
+
+/-- `preserve_parameters(old_net, new_net)`; `none` = raises -/
+def preserveNet {α} (pol : NormPolicy) (mode : Mode) (old : Params α) : Params α → Option (Params α)
+  | [] => some []
+  | (key, p) :: rest =>
+    match preserveKey pol mode old key p, preserveNet pol mode old rest with
+    | some t, some r => some ((key, t) :: r)
+    | _, _ => none
+
+inductive BufPolicy where
+  | fresh     -- current code: buffers of the re-created network are the newly initialised ones
+  | carry     -- repaired: buffers are carried over exactly like parameters
+deriving Repr, DecidableEq
+
+/-- what a module's output depends on: parameters and buffers -/
+structure NetState (α : Type) where
+  params  : Params α
+  buffers : Params α
+deriving Repr, DecidableEq
+
+/-- `recreate_network`: build a fresh network (`fresh`, any initialisation) for the current
+    architecture and preserve the old parameters into it -/
+def recreate {α} (pol : NormPolicy) (bp : BufPolicy) (mode : Mode) (old fresh : NetState α) :
+    Option (NetState α) :=
+  match preserveNet pol mode old.params fresh.params with
+  | none => none
+  | some ps =>
+    match bp with
+    | .fresh => some { params := ps, buffers := fresh.buffers }
+    | .carry =>
+      -- buffers carry no "norm" exemption: they are statistics of the layer, copied on the common box
+      (preserveNet .slice mode old.buffers fresh.buffers).map fun bs => { params := ps, buffers := bs }
+
+/-! ### `load_state_dict` / `clone` -/
+
+def sameKeysShapes {α} (a b : Params α) : Bool :=
+  a.map (fun kt => (kt.1, kt.2.shape)) == b.map (fun kt => (kt.1, kt.2.shape))
+
+/-- strict `load_state_dict`: every entry of the target takes the value of the same-named entry of
+    the source; `none` = `RuntimeError` (missing / unexpected key or size mismatch).
+    Entries are compared in order: both lists come from the same class built from an `init_dict`,
+    torch itself matches by name. -/
+def loadStrict {α} (target src : Params α) : Option (Params α) :=
+  if sameKeysShapes target src then
+    some (target.map fun kt => (kt.1, (lookup src kt.1).getD kt.2))      -- matched by name
+  else none
+
+def loadState {α} (target src : NetState α) : Option (NetState α) :=
+  match loadStrict target.params src.params, loadStrict target.buffers src.buffers with
+  | some p, some b => some { params := p, buffers := b }
+  | _, _ => none
+
+/-- `EvolvableModule.clone`: `fresh` is `cls(**init_dict)`; a failing load is swallowed
+    (`except RuntimeError: pass`) and the clone keeps its fresh initialisation -/
+def clone {α} (fresh self : NetState α) : NetState α :=
+  (loadState fresh self).getD fresh
+
+/-- `EvolvableDistribution.clone` (an `EvolvableWrapper`): a new wrapper is built around
+    `wrapped.clone()`.  Entries of the wrapped network (`isWrapped key`) are loaded by name; the
+    wrapper's own parameters (`log_std`) stay those of the fresh wrapper in the current code
+    (`loadOwn = false`), and are loaded too in the repaired one (`loadOwn = true`). -/
+def cloneWrapper {α} (loadOwn : Bool) (isWrapped : String → Bool) (fresh self : Params α) : Params α :=
+  fresh.map fun kt =>
+    if isWrapped kt.1 || loadOwn then (kt.1, (lookup self kt.1).getD kt.2) else kt
+
+end Preserve
+
+/-! ### line protocol -/
 namespace Preserve
 open Util
 
 structure IOState where
-  dummy : Nat := 0
+  old : List (String × Shape) := []      -- `dict(old_net.named_parameters())` (shapes only)
+  tgt : List (String × Shape) := []      -- target of a `load_state_dict`
+
+def parsePolicy? : String → Option NormPolicy
+  | "reset" => some .reset
+  | "slice" => some .slice
+  | _ => none
+
+def parseMode? : String → Option Mode
+  | "full" => some .full
+  | "shrink" => some .shrink
+  | _ => none
+
+/-- `<rank> d_1 … d_rank` followed by the rest -/
+def parseShape? : List String → Option (Shape × List String)
+  | [] => none
+  | r :: ws =>
+    match parseNat? r with
+    | none => none
+    | some n =>
+      if ws.length < n then none else
+        match parseNats? (ws.take n) with
+        | some s => some (s, ws.drop n)
+        | none => none
+
+/-- run-length encoding of a provenance map: `o<start>+<len>` (consecutive old elements),
+    `f*<len>` (fresh) -/
+def rle : List Src → List (Src × Nat) → List (Src × Nat)
+  | [], acc => acc.reverse
+  | .fresh :: rest, (.fresh, n) :: acc => rle rest ((.fresh, n + 1) :: acc)
+  | .old k :: rest, (.old s, n) :: acc =>
+    if k = s + n then rle rest ((.old s, n + 1) :: acc) else rle rest ((.old k, 1) :: (.old s, n) :: acc)
+  | x :: rest, acc => rle rest ((x, 1) :: acc)
+
+def showSeg : Src × Nat → String
+  | (.fresh, n) => s!"f*{n}"
+  | (.old s, n) => s!"o{s}+{n}"
+
+def showProv (os ns : Shape) : Option (List Src) → String
+  | none => "reject"
+  | some p =>
+    if os = ns then s!"alias {numel ns}"
+    else if p.isEmpty then "empty" else " ".intercalate ((rle p []).map showSeg)
+
+def lookupShape (l : List (String × Shape)) (key : String) : Option Shape :=
+  match l with
+  | [] => none
+  | (k, s) :: rest => if k = key then some s else lookupShape rest key
 
 def step (s : IOState) : List String → IOState × String
+  | ["clear"] => ({}, "ok")
+  | "old" :: key :: ws =>
+    match parseShape? ws with
+    | some (sh, []) => ({ s with old := s.old ++ [(key, sh)] }, "ok")
+    | _ => (s, "bad-op")
+  | "tgt" :: key :: ws =>
+    match parseShape? ws with
+    | some (sh, []) => ({ s with tgt := s.tgt ++ [(key, sh)] }, "ok")
+    | _ => (s, "bad-op")
+  -- one iteration of the preserve loop for a parameter of the new network
+  | "new" :: pol :: mode :: key :: ws =>
+    match parsePolicy? pol, parseMode? mode, parseShape? ws with
+    | some pol, some mode, some (ns, []) =>
+      match lookupShape s.old key with
+      | none => (s, s!"missing {numel ns}")
+      | some os => (s, showProv os ns (provT pol mode (isNormKey key) os ns))
+    | _, _, _ => (s, "bad-op")
+  -- explicit pair of shapes
+  | "prov" :: pol :: mode :: key :: ws =>
+    match parsePolicy? pol, parseMode? mode, parseShape? ws with
+    | some pol, some mode, some (os, ws') =>
+      match parseShape? ws' with
+      | some (ns, []) => (s, showProv os ns (provT pol mode (isNormKey key) os ns))
+      | _ => (s, "bad-op")
+    | _, _, _ => (s, "bad-op")
+  | ["isnorm", key] => (s, showBool (isNormKey key))
+  | "offset" :: ws =>
+    match parseShape? ws with
+    | some (sh, ws') =>
+      match parseNats? ws' with
+      | some idx => if inBounds sh idx then (s, toString (offset sh idx)) else (s, "reject")
+      | none => (s, "bad-op")
+    | none => (s, "bad-op")
+  | "unravel" :: k :: ws =>
+    match parseNat? k, parseShape? ws with
+    | some k, some (sh, []) => if k < numel sh then (s, showNats (unravel sh k)) else (s, "reject")
+    | _, _ => (s, "bad-op")
+  | "numel" :: ws =>
+    match parseShape? ws with
+    | some (sh, []) => (s, toString (numel sh))
+    | _ => (s, "bad-op")
+  -- strict load_state_dict of the registered `old` entries into the registered `tgt` entries
+  | ["load"] =>
+    if s.tgt == s.old then (s, "ok") else (s, "reject")
   | _ => (s, "bad-op")
 
 end Preserve
